@@ -19,6 +19,7 @@ package kernel
 //@   property C20
 //@   requires ChainOK(chain) && final != nil && external != nil
 //@   requires [mirror] LinkAt(chain, external.NodeId) == storage.SLink(SV(chain), final.NodeId, external.NodeId)
+//@   requires [strict] strict ==> NodeRep(chain.node) && AllBooted(chain.node) -- determineBestRound
 //@   modifies chain.State.RoundLinks[..], chain.node.chains.m[..]
 //@   ensures [other-chain] err == nil ==> final.NodeId != external.NodeId
 //@   ensures [forward] err == nil ==> LinkAt(chain, external.NodeId) == external.Number && external.Number >= old(LinkAt(chain, external.NodeId))
@@ -41,16 +42,37 @@ package kernel
 //@   requires node != nil
 //@   modifies node.chains.m[..]
 //@   ensures ChainBooted(result)
+//@   ensures [keeps-booted] old(AllBooted(node)) ==> AllBooted(node) -- it only ADDS an entry (a newly built, loaded chain) to the chains map
 
 //@ func (chain *Chain) checkReferenceSanity
 //@   property C20
 //@   requires chain != nil && chain.node != nil && ChainBooted(ec) && external != nil
 //@   modifies nothing
 
-//@ -- determineBestRound: read-only search for the best external round (RLock on the chains map, a scan of the node list).
+//@ -- determineBestRound: read-only search for the best external round (RLock on the chains map, a scan of the accepted node list).
+//@ -- Its answer only decides whether a strict reference is rejected as "too early"; for C20 what matters is that it writes nothing.
+//@ -- [booted]: every node of a cached accepted-node list has a booted chain whose history holds no nil (boot order:
+//@ -- LoadAllChainsAndGraphTimestamp builds and loads the chain of every listed node before the CoSi loops run) -- assumption about callers.
+//@ spec HistBooted(ec *Chain) bool = ChainBooted(ec) && len(ec.State.RoundHistory) < 1152921504606846976 &&
+//@     forall k int :: 0 <= k && k < len(ec.State.RoundHistory) ==> ec.State.RoundHistory[k] != nil
+//@ spec AllBooted(node *Node) bool = node.chains != nil && node.chains.m != nil &&
+//@     forall i, j int :: {node.acceptedNodeStateSequences[i].NodesWithoutState[j]} 0 <= i && i < len(node.acceptedNodeStateSequences) && 0 <= j && j < len(node.acceptedNodeStateSequences[i].NodesWithoutState) ==>
+//@         has(node.chains.m, node.acceptedNodeStateSequences[i].NodesWithoutState[j].IdForNetwork) &&
+//@         HistBooted(node.chains.m[node.acceptedNodeStateSequences[i].NodesWithoutState[j].IdForNetwork])
 //@ func (chain *Chain) determineBestRound
-//@   opaque
+//@   property C20
+//@   requires chain != nil && chain.node != nil && NodeRep(chain.node)
+//@   requires [booted] AllBooted(chain.node)
 //@   modifies nothing
+//@   loop 0 invariant [booted] AllBooted(chain.node)
+//@   loop 0 invariant [list] IsList(chain.node.acceptedNodeStateSequences, roundTime, nodes)
+
+//@ func historySinceRound
+//@   property C20
+//@   requires forall k int :: 0 <= k && k < len(history) ==> history[k] != nil
+//@   modifies nothing
+//@   ensures [first] len(result) > 0 ==> result[0] != nil
+//@   loop 0 invariant true
 
 //@ -- LinksSame: no entry of the in-memory link map has changed
 //@ spec ExtNode(chain *Chain, h crypto.Hash) crypto.Hash = storage.SRoundNodeId(SV(chain), h)
@@ -60,6 +82,7 @@ package kernel
 //@   property C20
 //@   requires ChainOK(chain) && cache != nil && references != nil && RoundOK(cache)
 //@   requires [mirror] MirrorOK(chain)
+//@   requires [strict] !finalized ==> NodeRep(chain.node) && AllBooted(chain.node)
 //@   panics when chain.ChainId != cache.NodeId
 //@   modifies cache.Snapshots[..], chain.State.RoundLinks[..], chain.node.chains.m[..]
 //@   ensures [shape] (err != nil ==> result0 == nil && !result1) && (result1 ==> finalized && result0 != nil)
@@ -106,6 +129,7 @@ package kernel
 //@   property C20
 //@   requires ChainOK(chain) && cache != nil && cache.References != nil && references != nil && RoundOK(cache) && HistoryOK(chain)
 //@   requires [mirror] MirrorOK(chain)
+//@   requires [strict] !finalized ==> NodeRep(chain.node) && AllBooted(chain.node) -- node membership cache and booted chains: read by determineBestRound on the strict path
 //@   requires [own] chain.ChainId == cache.NodeId -- validateNewRound panics otherwise; callers pass chain.State.CacheRound
 //@   requires [nowrap] cache.Number < 18446744073709551615
 //@   requires [history] LastHistory(chain) == cache.Number || LastHistory(chain) + 1 == cache.Number -- assignNewGraphRound panics otherwise
@@ -142,6 +166,7 @@ package kernel
 //@   property C20
 //@   requires ChainOK(chain) && final != nil && cache != nil && cache.References != nil && references != nil && HistoryOK(chain)
 //@   requires [mirror] MirrorOK(chain)
+//@   requires [strict] strict ==> NodeRep(chain.node) && AllBooted(chain.node)
 //@   requires [own] chain.ChainId == cache.NodeId && chain.ChainId == final.NodeId && final.Number + 1 == cache.Number -- assignNewGraphRound panics otherwise; callers pass chain.State.FinalRound/CacheRound
 //@   requires [history] LastHistory(chain) == final.Number || U64(LastHistory(chain) + 1) == final.Number
 //@   requires [head] HeadOK(chain, cache)
